@@ -250,6 +250,19 @@ func (s *Solver) Check() string {
 	return res
 }
 
+// RawCheck runs a self-contained script (starting with "(push 1)") and pops it again.
+func (s *Solver) RawCheck(script string) string {
+	gen := s.Restarts
+	for _, line := range strings.Split(strings.TrimSpace(script), "\n") {
+		s.send(line)
+	}
+	r := s.Check()
+	if s.Restarts == gen {
+		s.send("(pop 1)")
+	}
+	return r
+}
+
 // CheckWith checks the current stack plus extra, leaving the stack unchanged.
 func (s *Solver) CheckWith(extra *Term) string {
 	if extra.IsFalse() {
